@@ -96,6 +96,7 @@ const (
 	StructF   = "StF"   // fixed-size struct (12 bytes)
 	StructBig = "StBig" // fixed-size struct of 256 bytes (sixteen guids)
 	BranchT   = "UbT"   // union branch whose fields are of a sibling branch type
+	StructN   = "StN"   // struct made of enums only (9 bytes): its size rests on the enum size table
 )
 
 func NewUniverse() *Universe {
@@ -112,6 +113,7 @@ func NewUniverse() *Universe {
 	u.Types[StructV] = TypeInfo{Name: StructV, Class: ClsStruct}
 	u.Types[StructF] = TypeInfo{Name: StructF, Class: ClsStruct}
 	u.Types[StructBig] = TypeInfo{Name: StructBig, Class: ClsStruct}
+	u.Types[StructN] = TypeInfo{Name: StructN, Class: ClsStruct}
 	u.Types[MessageA] = TypeInfo{Name: MessageA, Class: ClsMessage}
 	u.Types[MessageE] = TypeInfo{Name: MessageE, Class: ClsMessage, Empty: true}
 	u.Types[UnionA] = TypeInfo{Name: UnionA, Class: ClsUnion}
@@ -149,6 +151,7 @@ func (u *Universe) BaseDefs(b *geneval.Builder) geneval.FileSpec {
 		b.Struct(StructV, false, 0, geneval.FieldSpec{Name: "c", Shape: geneval.Simple("uint16")}, geneval.FieldSpec{Name: "v", Shape: geneval.Arr(geneval.Simple("int32"))}),
 		b.Struct(StructF, false, 0, geneval.FieldSpec{Name: "x", Shape: geneval.Simple("int32")}, geneval.FieldSpec{Name: "y", Shape: geneval.Simple("float64")}),
 		b.Struct(StructBig, false, 0, big...),
+		b.Struct(StructN, false, 0, geneval.FieldSpec{Name: "k", Shape: geneval.Simple(EnumName("uint8"))}, geneval.FieldSpec{Name: "l", Shape: geneval.Simple(EnumName("int64"))}),
 		b.Struct(StructA, false, 0, geneval.FieldSpec{Name: "x", Shape: geneval.Simple("int32")}, geneval.FieldSpec{Name: "s", Shape: geneval.Simple("string")}),
 		b.Struct(StructE, false, 0),
 		b.Struct(StructM, false, 0, geneval.FieldSpec{Name: "m", Shape: geneval.Simple(MessageA)}, geneval.FieldSpec{Name: "u", Shape: geneval.Simple(UnionA)}),
@@ -178,7 +181,7 @@ func (u *Universe) BaseDefs(b *geneval.Builder) geneval.FileSpec {
 // 2 = full leaves at every depth (thorough).
 func (u *Universe) Shapes(maxDepth int, level int) []geneval.Shape {
 	leaves := u.Leaves()
-	rep := []string{"bool", "byte", "uint8", "int16", "uint32", "int64", "float64", "guid", "date", "string", EnumName("uint8"), EnumName("int64"), StructA, StructE, StructR, StructM, StructW, StructX, StructV, StructF, MessageA, UnionA}
+	rep := []string{"bool", "byte", "uint8", "int16", "uint32", "int64", "float64", "guid", "date", "string", EnumName("uint8"), EnumName("int64"), StructA, StructE, StructR, StructM, StructW, StructX, StructV, StructF, StructN, MessageA, UnionA}
 	keysAll := PrimitiveKeys
 	keysRep := []string{"string", "int32", "guid", "date", "byte"}
 	var out []geneval.Shape
